@@ -28,6 +28,9 @@ impl WakeupIntConfig {
     pub fn get_config0(&self) -> WakeupIntConfig0 {
         self.wkup_int_config0
     }
+    pub fn set_config0(&mut self, wkup_int_config0: WakeupIntConfig0) {
+        self.wkup_int_config0 = wkup_int_config0;
+    }
 }
 
 /// Configure Wake-up Interrupt settings
@@ -127,15 +130,16 @@ where
 
         // Disable the interrupt
         if self.device.config.wkup_int_config.is_int_en() && has_wkup_config_changes {
-            self.device.interface.write_register(
-                self.device
-                    .config
-                    .wkup_int_config
-                    .wkup_int_config0
-                    .with_x_axis(false)
-                    .with_y_axis(false)
-                    .with_z_axis(false),
-            )?;
+            let tmp_wkup_int_config0 = self
+                .device
+                .config
+                .wkup_int_config
+                .wkup_int_config0
+                .with_x_axis(false)
+                .with_y_axis(false)
+                .with_z_axis(false);
+            self.device.interface.write_register(tmp_wkup_int_config0)?;
+            self.device.config.wkup_int_config.wkup_int_config0 = tmp_wkup_int_config0;
         }
         // Write the config changes
         if self.device.config.wkup_int_config.wkup_int_config1.bits()
